@@ -4,3 +4,5 @@ set -eu
 cd "$(dirname "$(readlink -f "$0")")/harness"
 export CARGO_NET_OFFLINE=true
 cargo build --release --offline --workspace 2>&1 | tail -3
+# second profile (no debug assertions, wrapping arithmetic) for the pure-computation groups, see DESIGN 1.1
+cargo build --profile release-wrap --offline -p pv-crypto -p pv-math -p pv-codec -p pv-addr 2>&1 | tail -1
